@@ -1141,3 +1141,257 @@ Proof.
       cbn [nth_errN] in E. destruct (N.eqb_spec id 0); [discriminate|].
       apply (IH (N.pred id)); [|assumption]. unfold lenN in *. cbn [length] in X. lia.
 Qed.
+
+(* ================================================================== *)
+(* K. topology changes (restrict), dup                                 *)
+
+(* what hwloc_topology_restrict does as far as memattrs.c can see: objects
+   disappear, the survivors keep type/gp_index/os_index, the root cpuset shrinks *)
+Record shrinks (t t' : topo) : Prop := {
+  sh_wf : wf_topo t';
+  sh_objs : forall o', In o' (t_objs t') ->
+      exists o, In o (t_objs t) /\ o_type o = o_type o' /\ o_gp o = o_gp o' /\ o_os o = o_os o';
+  sh_root : bs_subset (t_root t') (t_root t) = true
+}.
+
+Lemma shrinks_lookup t t' ty gp : shrinks t t' -> obj_by_type_gp t ty gp = None -> obj_by_type_gp t' ty gp = None.
+Proof.
+  intros S H. destruct (obj_by_type_gp t' ty gp) as [o'|] eqn:E; [|reflexivity].
+  apply obj_by_type_gp_some in E. destruct E as [I' [T' G']].
+  destruct (sh_objs t t' S o' I') as [o [Io [To [Go _]]]].
+  unfold obj_by_type_gp in H. apply find_none with (x := o) in H; [|assumption].
+  rewrite To, Go, T', G', !N.eqb_refl in H. discriminate.
+Qed.
+
+Lemma refresh_imi_compose t t' i :
+  shrinks t t' ->
+  match refresh_imi t i with Some i1 => refresh_imi t' i1 | None => None end = refresh_imi t' i.
+Proof.
+  intros S. unfold refresh_imi. destruct i as [[c|ty gp] v ok]; cbn [i_loc i_val].
+  - destruct (bs_is_empty (bs_inter c (t_root t))) eqn:E.
+    + destruct (bs_is_empty (bs_inter c (t_root t'))) eqn:E'; [reflexivity|].
+      rewrite (bs_inter_empty_shrink c _ _ (sh_root t t' S) E') in E. discriminate.
+    + cbn [i_loc i_val]. rewrite (bs_inter_shrink c _ _ (sh_root t t' S)). reflexivity.
+  - destruct (obj_by_type_gp t ty gp) eqn:E; cbn [i_loc i_val].
+    + destruct (obj_by_type_gp t' ty gp); reflexivity.
+    + now rewrite (shrinks_lookup t t' ty gp S E).
+Qed.
+
+Lemma refresh_tg_compose t t' need g :
+  shrinks t t' -> g_gp g <> MEMATTR_GP_NONE ->
+  match refresh_tg t need g with Some g1 => refresh_tg t' need g1 | None => None end = refresh_tg t' need g.
+Proof.
+  intros S G. unfold refresh_tg. rewrite !lookup_target_gp by assumption.
+  destruct (obj_by_type_gp t (g_type g) (g_gp g)) as [o|] eqn:E.
+  2:{ now rewrite (shrinks_lookup t t' _ _ S E). }
+  pose proof (obj_by_type_gp_some _ _ _ _ E) as [_ [_ Hgp]].
+  assert (C : filter_map (refresh_imi t') (filter_map (refresh_imi t) (g_inits g)) = filter_map (refresh_imi t') (g_inits g)).
+  { rewrite filter_map_filter_map. apply filter_map_ext. intros i _. now apply refresh_imi_compose. }
+  destruct need.
+  - destruct (filter_map (refresh_imi t) (g_inits g)) as [|i0 is] eqn:F.
+    + cbn [filter_map] in C. rewrite <- C. destruct (obj_by_type_gp t' (g_type g) (g_gp g)); reflexivity.
+    + rewrite lookup_target_gp by (cbn [g_gp]; congruence).
+      cbn [g_type g_gp g_os g_inits g_val]. rewrite Hgp, C. reflexivity.
+  - rewrite lookup_target_gp by (cbn [g_gp]; congruence).
+    cbn [g_type g_gp g_os g_inits g_val]. rewrite Hgp. reflexivity.
+Qed.
+
+Lemma need_refresh_nth l id :
+  nth_errN (need_refresh l) id =
+  option_map (fun a => if a_conv a then a else Imattr (a_name a) (a_flags a) (a_conv a) false (a_tgs a)) (nth_errN l id).
+Proof. unfold need_refresh. apply nth_errN_map. Qed.
+
+Lemma os_ok_shrinks t t' g : shrinks t t' -> os_ok t g -> os_ok t' g.
+Proof.
+  intros S [H|H]; [now left|]. right. intros o' I' T' G'.
+  destruct (sh_objs t t' S o' I') as [o [Io [To [Go Oo]]]]. rewrite <- Oo. apply H; congruence.
+Qed.
+
+Lemma retopo_Inv s t' : Inv s -> shrinks (m_topo s) t' -> Inv (retopo s t').
+Proof.
+  intros [W C L A] S. constructor; cbn [retopo m_topo m_attrs].
+  - apply S.
+  - intros id b Hb. rewrite need_refresh_nth in Hb.
+    destruct (nth_errN (m_attrs s) id) as [a|] eqn:E; [|discriminate]. cbn [option_map] in Hb.
+    injection Hb as <-. rewrite <- (C id a E). destruct (a_conv a) eqn:Ec; [exact Ec|reflexivity].
+  - unfold lenN, need_refresh in *. now rewrite map_length.
+  - unfold need_refresh. apply Forall_forall. intros b Hb. apply in_map_iff in Hb. destruct Hb as [a [<- Ha]].
+    rewrite Forall_forall in A. destruct (A a Ha) as [T [N [V Cv]]].
+    assert (T' : Forall (tg_ok t' (need_init a)) (a_tgs a)).
+    { apply Forall_forall. intros g Hg. rewrite Forall_forall in T. destruct (T g Hg) as [G1 [G2 G3]].
+      split; [assumption|]. split; [now apply (os_ok_shrinks (m_topo s))|assumption]. }
+    destruct (a_conv a) eqn:Ec.
+    + unfold attr_ok. rewrite (Cv eq_refl). repeat split; constructor.
+    + unfold attr_ok, need_init. cbn [a_tgs a_flags a_valid a_conv]. repeat split; try assumption; discriminate.
+Qed.
+
+(* entries of removed targets or emptied initiators disappear, the others keep
+   their values: the content after restrict is the refresh, against the new
+   topology, of the content before *)
+Lemma retopo_tgs s t' id a :
+  Inv s -> shrinks (m_topo s) t' -> get_attr s id = Some a -> a_conv a = false ->
+  tgs_of (retopo s t') id = filter_map (refresh_tg t' (need_init a)) (tgs_of s id).
+Proof.
+  intros I S G C. unfold tgs_of, get_attr in *. cbn [retopo m_attrs m_topo].
+  rewrite need_refresh_nth, G. cbn [option_map]. rewrite C.
+  unfold cur at 1. cbn [a_valid]. unfold refresh_attr at 1. cbn [a_tgs]. unfold need_init at 1. cbn [a_flags]. fold (need_init a).
+  unfold cur. destruct (a_valid a); [reflexivity|].
+  unfold refresh_attr. cbn [a_tgs]. rewrite filter_map_filter_map. symmetry.
+  apply filter_map_ext. intros g Hg. apply refresh_tg_compose; [assumption|].
+  destruct (Inv_get s id a I G) as [T _]. rewrite Forall_forall in T. now apply T.
+Qed.
+
+Lemma ok_tg_idem g : ok_tg (ok_tg g) = ok_tg g.
+Proof. unfold ok_tg. cbn [g_type g_gp g_os g_inits g_val]. rewrite map_map. reflexivity. Qed.
+
+Lemma dup_Inv s : Inv s -> Inv (dup_switch s).
+Proof.
+  intros [W C L A]. constructor; cbn [dup_switch m_topo m_attrs].
+  - assumption.
+  - intros id b Hb. rewrite nth_errN_map in Hb.
+    destruct (nth_errN (m_attrs s) id) as [a|] eqn:E; [|discriminate]. injection Hb as <-. cbn [a_conv]. now apply C.
+  - unfold lenN in *. now rewrite map_length.
+  - apply Forall_forall. intros b Hb. apply in_map_iff in Hb. destruct Hb as [a [<- Ha]].
+    rewrite Forall_forall in A. destruct (A a Ha) as [T [N [V Cv]]].
+    unfold attr_ok, need_init. cbn [a_tgs a_flags a_valid a_conv]. repeat split; try assumption. discriminate.
+Qed.
+
+Lemma dup_tgs s id : Inv s -> map ok_tg (tgs_of (dup_switch s) id) = map ok_tg (tgs_of s id).
+Proof.
+  intros I. unfold tgs_of, get_attr. cbn [dup_switch m_attrs m_topo]. rewrite nth_errN_map.
+  destruct (nth_errN (m_attrs s) id) as [a|] eqn:E; [|reflexivity]. cbn [option_map].
+  unfold cur at 1. cbn [a_valid]. unfold refresh_attr at 1. cbn [a_tgs]. unfold need_init at 1. cbn [a_flags]. fold (need_init a).
+  unfold cur. destruct (a_valid a) eqn:V; [|reflexivity].
+  destruct (Inv_get s id a I E) as [T [_ [St _]]].
+  rewrite (refresh_stable_list _ _ _ T (St V)). rewrite map_map. apply map_ext. intros g. apply ok_tg_idem.
+Qed.
+
+(* ================================================================== *)
+(* M. all histories                                                    *)
+
+Definition loc_ok (t : topo) (l : location) : Prop :=
+  match l with
+  | LCpu (Some c) => bs_subset c (t_root t) = true
+  | LObj o => In o (t_objs t)
+  | _ => True
+  end.
+
+(* the hypotheses on a history: objects passed to the API belong to the current
+   topology, cpuset initiators given to set_value lie inside the root cpuset,
+   restrict only removes things; the internal/XML entry points are not part of
+   the histories quantified over here *)
+Definition op_ok (s : mstate) (o : op) : Prop :=
+  match o with
+  | OSet _ (Some tgt) init _ _ => In tgt (t_objs (m_topo s)) /\ match init with Some l => loc_ok (m_topo s) l | None => True end
+  | ORetopo t' => shrinks (m_topo s) t'
+  | OISet _ _ _ _ _ _ | OXml _ => False
+  | _ => True
+  end.
+
+Fixpoint hist_ok (s : mstate) (ops : list op) : Prop :=
+  match ops with
+  | [] => True
+  | o :: r => op_ok s o /\ hist_ok (fst (step s o)) r
+  end.
+
+Lemma to_internal_stable t l q : loc_ok t l -> wf_topo t -> to_internal l = Some q -> loc_stable t q.
+Proof.
+  unfold to_internal, loc_ok. destruct l as [[c|]|o|]; try discriminate.
+  - destruct (bs_is_empty c) eqn:E; [discriminate|]. intros H _ K. injection K as <-. split; assumption.
+  - intros H W K. injection K as <-. exists o. now apply obj_by_type_gp_in.
+Qed.
+
+Lemma set_value_cases s id o init flags v :
+  Inv s -> In o (t_objs (m_topo s)) -> match init with Some l => loc_ok (m_topo s) l | None => True end ->
+  (fst (set_value s id (Some o) init flags v) = s) \/
+  (flags = 0 /\ exists il, public_il init = Some il /\ set_args_ok s id o il).
+Proof.
+  intros I Ho Hl. unfold set_value. destruct (N.eqb_spec flags 0) as [->|]; [|now left]. cbn [negb].
+  assert (X : forall il, il_stable (m_topo s) il ->
+     fst (set_core true s id (o_type o) (o_gp o) (o_os o) il v) = s \/ set_args_ok s id o il).
+  { intros il Sil. unfold set_core. destruct (get_attr s id) as [a|] eqn:G; [|now left].
+    destruct (need_init a && _) eqn:N; [now left|]. destruct (a_conv a) eqn:C; [now left|].
+    right. split; [assumption|]. split; [assumption|]. exists a. auto. }
+  destruct init as [l|].
+  - destruct (to_internal l) as [q|] eqn:T; [|now left].
+    destruct (X (Some q)) as [H|H]; [cbn [il_stable]; eapply to_internal_stable; eauto; apply I|now left|].
+    right. split; [reflexivity|]. exists (Some q). split; [|assumption]. unfold public_il. now rewrite T.
+  - destruct (X None Logic.I) as [H|H]; [now left|]. right. split; [reflexivity|]. exists None. split; [reflexivity|assumption].
+Qed.
+
+Lemma register_Inv s name flags : Inv s -> Inv (fst (register s name flags)).
+Proof.
+  intros I. pose proof (register_rules s name flags) as [R1 [R2 R3]]. cbn zeta in *.
+  destruct (reg_flags_ok flags) eqn:F.
+  2:{ destruct (R1 eq_refl) as [_ ->]. assumption. }
+  destruct (name_used (m_attrs s) name) eqn:U.
+  { destruct (R2 eq_refl eq_refl) as [_ ->]. assumption. }
+  destruct (R3 eq_refl eq_refl) as [_ [T [At _]]].
+  destruct I as [W C L A]. constructor; rewrite ?T, ?At.
+  - assumption.
+  - intros id a Ha. destruct (N.lt_ge_cases id (lenN (m_attrs s))) as [Hl|Hl].
+    + rewrite nth_errN_app_l in Ha by assumption. now apply C.
+    + destruct (N.eq_dec id (lenN (m_attrs s))) as [->|Hne].
+      * rewrite nth_errN_app_len in Ha. cbn [nth_errN N.eqb] in Ha. injection Ha as <-. cbn [a_conv].
+        symmetry. apply N.ltb_ge. assumption.
+      * exfalso. assert (X : nth_errN (m_attrs s ++ [Imattr name flags false true []]) id = None).
+        { apply nth_errN_none. unfold lenN in *. rewrite app_length. cbn [length]. lia. }
+        congruence.
+  - unfold lenN in *. rewrite app_length. lia.
+  - apply Forall_app. split; [assumption|]. constructor; [|constructor].
+    unfold attr_ok. cbn [a_tgs]. repeat split; constructor.
+Qed.
+
+Lemma step_Inv s o : Inv s -> op_ok s o -> Inv (fst (step s o)).
+Proof.
+  intros I K. destruct o;
+    try (match goal with |- Inv (fst (step s ?o)) => apply (proj1 (query_preserves s o I eq_refl)) end);
+    cbn [op_ok] in K; cbn [step].
+  - rewrite fst_let. now apply register_Inv.
+  - rewrite fst_let. destruct tgt as [tgt|]; [|exact I]. destruct K as [K1 K2].
+    destruct (set_value_cases s id tgt init flags v I K1 K2) as [->|[-> [il [P A]]]]; [assumption|].
+    pose proof (set_then_get s id tgt init il v I P A) as [_ [I' _]]. exact I'.
+  - destruct K.
+  - now apply retopo_Inv.
+  - now apply dup_Inv.
+  - destruct K.
+Qed.
+
+Lemma run_Inv s ops : Inv s -> hist_ok s ops -> Inv (run s ops).
+Proof.
+  revert s. induction ops as [|o r IH]; intros s I H; [exact I|].
+  cbn [hist_ok] in H. destruct H as [H1 H2]. unfold run. cbn [fold_left]. apply IH; [now apply step_Inv|assumption].
+Qed.
+
+Lemma cur_conv t a : a_conv (cur t a) = a_conv a.
+Proof. unfold cur. destruct (a_valid a); reflexivity. Qed.
+
+Lemma init_state_Inv t : wf_topo t -> Inv (init_state t).
+Proof.
+  intros W.
+  assert (E : map a_conv (m_attrs (init_state t)) = map a_conv init_attrs).
+  { cbn [init_state m_attrs]. unfold refresh_all, need_refresh. rewrite !map_map. apply map_ext.
+    intros a. rewrite cur_conv. destruct (a_conv a) eqn:Ec; [exact Ec|reflexivity]. }
+  assert (Tg : Forall (fun a => a_tgs a = []) (m_attrs (init_state t))).
+  { cbn [init_state m_attrs]. unfold refresh_all, need_refresh. rewrite map_map. apply Forall_forall.
+    intros b Hb. apply in_map_iff in Hb. destruct Hb as [a [<- Ha]].
+    assert (Ta : a_tgs a = []).
+    { revert a Ha. apply Forall_forall. unfold init_attrs. apply Forall_forall. intros a Ha.
+      apply in_map_iff in Ha. destruct Ha as [[[n f] i] [<- _]]. reflexivity. }
+    unfold cur. destruct (a_conv a); [destruct (a_valid a)|]; cbn [a_valid a_tgs refresh_attr]; rewrite ?Ta; reflexivity. }
+  constructor.
+  - exact W.
+  - intros id a Ha. assert (X : nth_errN (map a_conv (m_attrs (init_state t))) id = Some (a_conv a))
+      by (rewrite nth_errN_map, Ha; reflexivity).
+    rewrite E in X. change (map a_conv init_attrs) with [true; true; false; false; false; false; false; false] in X.
+    cbn [nth_errN] in X.
+    destruct (N.eqb_spec id 0) as [E0|H0]; [injection X as <-; subst id; reflexivity|].
+    destruct (N.eqb_spec (N.pred id) 0) as [E1|H1]; [injection X as <-; replace id with 1 by lia; reflexivity|].
+    assert (G2 : (id <? 2) = false) by (apply N.ltb_ge; lia). rewrite G2.
+    repeat (match type of X with context [N.eqb ?x 0] => destruct (N.eqb_spec x 0) end; [injection X as <-; reflexivity|]).
+    discriminate X.
+  - assert (X : length (map a_conv (m_attrs (init_state t))) = length (map a_conv init_attrs)) by now rewrite E.
+    rewrite !map_length in X. unfold lenN. rewrite X. vm_compute. discriminate.
+  - apply Forall_forall. intros a Ha. rewrite Forall_forall in Tg. specialize (Tg a Ha).
+    unfold attr_ok. rewrite Tg. repeat split; constructor.
+Qed.
